@@ -1058,6 +1058,21 @@ impl SolarDay {
       term = term.next(-1);
       day = term.get_julian_day().get_solar_day();
     }
+    // 1583年以前、7275年以后，下一个节气可能已在当月内开始
+    let end: f64 = self.get_julian_day().get_day() + 1.0;
+    loop {
+      let next: SolarTerm = term.next(1);
+      let jd: JulianDay = next.get_julian_day();
+      if jd.get_day() >= end {
+        break;
+      }
+      let next_day: SolarDay = jd.get_solar_day();
+      if self.is_before(next_day) {
+        break;
+      }
+      term = next;
+      day = next_day;
+    }
     SolarTermDay::new(term, self.subtract(day) as usize)
   }
 
@@ -1561,6 +1576,16 @@ impl SolarTime {
     let mut term: SolarTerm = SolarTerm::from_index(y, i as isize);
     while self.is_before(term.get_julian_day().get_solar_time()) {
       term = term.next(-1);
+    }
+    // 1583年以前、7275年以后，下一个节气可能已在当月内开始
+    let end: f64 = self.get_julian_day().get_day() + 1.0;
+    loop {
+      let next: SolarTerm = term.next(1);
+      let jd: JulianDay = next.get_julian_day();
+      if jd.get_day() >= end || self.is_before(jd.get_solar_time()) {
+        break;
+      }
+      term = next;
     }
     term
   }
